@@ -15,6 +15,25 @@ impl ParseError {
     // bad formatting: never fatal
     #[verifier::external_body]
     pub fn format<T>(err: T) -> (r: ParseError) ensures !r.is_fatal_spec() { unimplemented!() }
+    #[verifier::external_body]
+    pub fn is_fatal(&self) -> (r: bool) ensures r == self.is_fatal_spec() { unimplemented!() }
+    // an unexpected EOF is never fatal
+    #[verifier::external_body]
+    pub fn is_eof(&self) -> (r: bool) ensures r ==> !self.is_fatal_spec() { unimplemented!() }
+}
+impl Time {
+    #[verifier::external_body]
+    pub fn now() -> (r: Time) { unimplemented!() }
+    #[verifier::external_body]
+    pub fn timestamp(&self) -> (r: i64) { unimplemented!() }
+}
+impl Clone for UriRsync {
+    #[verifier::external_body]
+    fn clone(&self) -> (r: Self) ensures r == *self { unimplemented!() }
+}
+impl Clone for UriHttps {
+    #[verifier::external_body]
+    fn clone(&self) -> (r: Self) ensures r == *self { unimplemented!() }
 }
 #[verifier::external_body] pub struct FmtOpaque { _opaque: () }
 #[verifier::external_body]
@@ -29,21 +48,46 @@ pub uninterp spec fn enc_uri_rsync(u: UriRsync) -> Seq<u8>;
 impl Encodable for UriRsync { open spec fn enc(&self) -> Seq<u8> { enc_uri_rsync(*self) } }
 pub uninterp spec fn enc_opt_uri_https(u: Option<UriHttps>) -> Seq<u8>;
 impl Encodable for Option<UriHttps> { open spec fn enc(&self) -> Seq<u8> { enc_opt_uri_https(*self) } }
-// Each primitive encoding is self-delimiting (fixed length or length-prefixed).
+pub uninterp spec fn enc_u32(v: u32) -> Seq<u8>;
+impl Encodable for u32 { open spec fn enc(&self) -> Seq<u8> { enc_u32(*self) } }
+pub uninterp spec fn enc_u64(v: u64) -> Seq<u8>;
+impl Encodable for u64 { open spec fn enc(&self) -> Seq<u8> { enc_u64(*self) } }
+pub uninterp spec fn enc_i64(v: i64) -> Seq<u8>;
+impl Encodable for i64 { open spec fn enc(&self) -> Seq<u8> { enc_i64(*self) } }
+pub uninterp spec fn enc_opt_time(v: Option<Time>) -> Seq<u8>;
+impl Encodable for Option<Time> { open spec fn enc(&self) -> Seq<u8> { enc_opt_time(*self) } }
+// Each primitive encoding is self-delimiting (fixed length or length-prefixed): where one
+// encoding ends is determined by the bytes.
 pub open spec fn self_delimiting<T: Encodable>() -> bool {
-    forall|a: T, x: Seq<u8>, b: T, y: Seq<u8>| #[trigger] (a.enc() + x) == #[trigger] (b.enc() + y) ==> a == b && x == y
+    forall|a: T, x: Seq<u8>, b: T, y: Seq<u8>| #[trigger] (a.enc() + x) == #[trigger] (b.enc() + y) ==> a.enc() == b.enc() && x == y
+}
+// ... and, except for times, determines the value. (Time/Option<Time> are NOT injective: Time has
+// sub-second precision, the encoding keeps whole seconds only.)
+pub open spec fn injective<T: Encodable>() -> bool {
+    forall|a: T, b: T| #[trigger] a.enc() == #[trigger] b.enc() ==> a == b
 }
 #[verifier::external_body]
 pub proof fn axiom_primitives()
     ensures self_delimiting::<Time>(), self_delimiting::<UriRsync>(), self_delimiting::<Option<UriHttps>>(),
+            self_delimiting::<u32>(), self_delimiting::<u64>(), self_delimiting::<i64>(), self_delimiting::<Option<Time>>(),
+            injective::<UriRsync>(), injective::<Option<UriHttps>>(), injective::<u32>(), injective::<u64>(), injective::<i64>(),
 { unimplemented!() }
 
 // ---- readers and writers; crash steps ------------------------------------------------
 pub trait IoRead { spec fn remaining(&self) -> Seq<u8>; }
-pub trait IoWrite {
+pub trait IoWrite: Sized {
     spec fn written(&self) -> Seq<u8>;
     // C23: `bytes` is a state the underlying file may be left in by a crash
     spec fn state_ok(&self, bytes: Seq<u8>) -> bool;
+    // std::io::Write::write_all: ONE CRASH STEP
+    fn write_all(&mut self, buf: &[u8]) -> (r: Result<(), IoError>)
+        requires forall|n: int| 0 <= n <= buf@.len() ==> old(self).state_ok(old(self).written() + #[trigger] buf@.subrange(0, n)),
+        ensures appended(old(self).written(), final(self).written(), buf@, r is Ok),
+                r is Err ==> io_failure(),
+                forall|b: Seq<u8>| final(self).state_ok(b) == old(self).state_ok(b);
+    fn flush(&mut self) -> (r: Result<(), IoError>)
+        ensures final(self).written() == old(self).written(),
+                forall|b: Seq<u8>| final(self).state_ok(b) == old(self).state_ok(b);
 }
 pub open spec fn appended(old_w: Seq<u8>, new_w: Seq<u8>, data: Seq<u8>, ok: bool) -> bool {
     if ok { new_w == old_w + data }
@@ -76,6 +120,22 @@ impl<W: IoWrite> Compose<W> for Option<UriHttps> {
     #[verifier::external_body]
     fn compose(&self, target: &mut W) -> (r: Result<(), IoError>) { unimplemented!() }
 }
+impl<W: IoWrite> Compose<W> for u32 {
+    #[verifier::external_body]
+    fn compose(&self, target: &mut W) -> (r: Result<(), IoError>) { unimplemented!() }
+}
+impl<W: IoWrite> Compose<W> for u64 {
+    #[verifier::external_body]
+    fn compose(&self, target: &mut W) -> (r: Result<(), IoError>) { unimplemented!() }
+}
+impl<W: IoWrite> Compose<W> for i64 {
+    #[verifier::external_body]
+    fn compose(&self, target: &mut W) -> (r: Result<(), IoError>) { unimplemented!() }
+}
+impl<W: IoWrite> Compose<W> for Option<Time> {
+    #[verifier::external_body]
+    fn compose(&self, target: &mut W) -> (r: Result<(), IoError>) { unimplemented!() }
+}
 // Parse::parse: consumes exactly one encoding; an error is fatal only on a genuine I/O
 // failure (unexpected EOF and bad formatting are not fatal); a complete encoding is accepted.
 pub trait Parse<R: IoRead>: Sized + Encodable {
@@ -102,3 +162,87 @@ impl<R: IoRead> Parse<R> for Option<UriHttps> {
     #[verifier::external_body]
     fn parse(source: &mut R) -> (r: Result<Option<UriHttps>, ParseError>) { unimplemented!() }
 }
+impl<R: IoRead> Parse<R> for u32 {
+    #[verifier::external_body]
+    fn parse(source: &mut R) -> (r: Result<u32, ParseError>) { unimplemented!() }
+}
+impl<R: IoRead> Parse<R> for u64 {
+    #[verifier::external_body]
+    fn parse(source: &mut R) -> (r: Result<u64, ParseError>) { unimplemented!() }
+}
+impl<R: IoRead> Parse<R> for i64 {
+    #[verifier::external_body]
+    fn parse(source: &mut R) -> (r: Result<i64, ParseError>) { unimplemented!() }
+}
+impl<R: IoRead> Parse<R> for Option<Time> {
+    #[verifier::external_body]
+    fn parse(source: &mut R) -> (r: Result<Option<Time>, ParseError>) { unimplemented!() }
+}
+// ---- std functions without a vstd specification (ASSUMED: their std definitions).
+// Declared so that a refactoring that starts using one of them is verified, not rejected.
+pub assume_specification<T: Ord + core::marker::Destruct> [std::cmp::min] (a: T, b: T) -> (r: T)
+    ensures <T as vstd::std_specs::cmp::OrdSpec>::obeys_cmp_spec() ==> r == (if vstd::std_specs::cmp::OrdSpec::cmp_spec(&b, &a) == std::cmp::Ordering::Less { b } else { a }),
+;
+pub assume_specification<T: Ord + core::marker::Destruct> [std::cmp::max] (a: T, b: T) -> (r: T)
+    ensures <T as vstd::std_specs::cmp::OrdSpec>::obeys_cmp_spec() ==> r == (if vstd::std_specs::cmp::OrdSpec::cmp_spec(&b, &a) == std::cmp::Ordering::Less { a } else { b }),
+;
+pub assume_specification [std::cmp::Ordering::is_lt] (o: std::cmp::Ordering) -> (r: bool)
+    ensures r == (o == std::cmp::Ordering::Less);
+pub assume_specification [std::cmp::Ordering::is_gt] (o: std::cmp::Ordering) -> (r: bool)
+    ensures r == (o == std::cmp::Ordering::Greater);
+pub assume_specification [std::cmp::Ordering::is_le] (o: std::cmp::Ordering) -> (r: bool)
+    ensures r == (o != std::cmp::Ordering::Greater);
+pub assume_specification [std::cmp::Ordering::is_ge] (o: std::cmp::Ordering) -> (r: bool)
+    ensures r == (o != std::cmp::Ordering::Less);
+pub assume_specification<T: core::marker::Destruct> [bool::then_some] (b: bool, t: T) -> (r: Option<T>)
+    ensures r == (if b { Some(t) } else { None::<T> });
+pub assume_specification<T: core::marker::Destruct> [std::option::Option::<T>::xor] (a: Option<T>, b: Option<T>) -> (r: Option<T>)
+    ensures r == (match (a, b) { (Some(x), None) => Some(x), (None, Some(y)) => Some(y), _ => None::<T> });
+pub assume_specification<'a, T: Copy> [std::option::Option::<&T>::copied] (o: Option<&'a T>) -> (r: Option<T>)
+    ensures r == (match o { Some(x) => Some(*x), None => None::<T> });
+pub assume_specification<T: core::marker::Destruct> [std::option::Option::<T>::or] (a: Option<T>, b: Option<T>) -> (r: Option<T>)
+    ensures r == (if a is Some { a } else { b });
+pub assume_specification<T: core::marker::Destruct, U: core::marker::Destruct> [std::option::Option::<T>::and] (a: Option<T>, b: Option<U>) -> (r: Option<U>)
+    ensures r == (if a is Some { b } else { None::<U> });
+pub assume_specification<T: core::marker::Destruct, U: core::marker::Destruct> [std::option::Option::<T>::zip] (a: Option<T>, b: Option<U>) -> (r: Option<(T, U)>)
+    ensures r == (match (a, b) { (Some(x), Some(y)) => Some((x, y)), _ => None::<(T, U)> });
+pub assume_specification<T, F: FnOnce(T) -> bool + core::marker::Destruct> [std::option::Option::<T>::is_some_and] (o: Option<T>, f: F) -> (r: bool)
+    requires o matches Some(x) ==> f.requires((x,)),
+    ensures match o { Some(x) => f.ensures((x,), r), None => !r };
+pub assume_specification<T, F: FnOnce(T) -> bool + core::marker::Destruct> [std::option::Option::<T>::is_none_or] (o: Option<T>, f: F) -> (r: bool)
+    requires o matches Some(x) ==> f.requires((x,)),
+    ensures match o { Some(x) => f.ensures((x,), r), None => r };
+pub assume_specification<T: core::marker::Destruct, P: FnOnce(&T) -> bool + core::marker::Destruct> [std::option::Option::<T>::filter] (o: Option<T>, p: P) -> (r: Option<T>)
+    requires o matches Some(x) ==> p.requires((&x,)),
+    ensures match o { Some(x) => (r == Some(x) && p.ensures((&x,), true)) || (r is None && p.ensures((&x,), false)), None => r is None };
+pub assume_specification<T: core::marker::Destruct, F: FnOnce() -> Option<T> + core::marker::Destruct> [std::option::Option::<T>::or_else] (o: Option<T>, f: F) -> (r: Option<T>)
+    requires o is None ==> f.requires(()),
+    ensures match o { Some(x) => r == o, None => f.ensures((), r) };
+pub assume_specification<T, U: core::marker::Destruct, F: FnOnce(T) -> U + core::marker::Destruct> [std::option::Option::<T>::map_or] (o: Option<T>, d: U, f: F) -> (r: U)
+    requires o matches Some(x) ==> f.requires((x,)),
+    ensures match o { Some(x) => f.ensures((x,), r), None => r == d };
+pub assume_specification<T, U, D: FnOnce() -> U + core::marker::Destruct, F: FnOnce(T) -> U + core::marker::Destruct> [std::option::Option::<T>::map_or_else] (o: Option<T>, d: D, f: F) -> (r: U)
+    requires o matches Some(x) ==> f.requires((x,)), o is None ==> d.requires(()),
+    ensures match o { Some(x) => f.ensures((x,), r), None => d.ensures((), r) };
+pub assume_specification<T: core::marker::Destruct, E: core::marker::Destruct> [std::result::Result::<T, E>::unwrap_or] (x: Result<T, E>, d: T) -> (r: T)
+    ensures r == (match x { Ok(v) => v, Err(_) => d });
+pub assume_specification<T, E: core::marker::Destruct, F: core::marker::Destruct> [std::result::Result::<T, E>::or] (a: Result<T, E>, b: Result<T, F>) -> (r: Result<T, F>)
+    ensures match a { Ok(v) => r == Ok::<T, F>(v), Err(_) => r == b };
+pub assume_specification<T, E, U, F: FnOnce(T) -> Result<U, E> + core::marker::Destruct> [std::result::Result::<T, E>::and_then] (x: Result<T, E>, f: F) -> (r: Result<U, E>)
+    requires x matches Ok(v) ==> f.requires((v,)),
+    ensures match x { Ok(v) => f.ensures((v,), r), Err(e) => r == Err::<U, E>(e) };
+pub assume_specification<T, E: core::marker::Destruct, F: FnOnce(T) -> bool + core::marker::Destruct> [std::result::Result::<T, E>::is_ok_and] (x: Result<T, E>, f: F) -> (r: bool)
+    requires x matches Ok(v) ==> f.requires((v,)),
+    ensures match x { Ok(v) => f.ensures((v,), r), Err(_) => !r };
+pub assume_specification<T, E, F: FnOnce(E) -> T + core::marker::Destruct> [std::result::Result::<T, E>::unwrap_or_else] (x: Result<T, E>, f: F) -> (r: T)
+    requires x matches Err(e) ==> f.requires((e,)),
+    ensures match x { Ok(v) => r == v, Err(e) => f.ensures((e,), r) };
+pub assume_specification<T> [std::mem::replace] (dest: &mut T, src: T) -> (r: T)
+    ensures r == *old(dest), *final(dest) == src;
+pub assume_specification<T: Default + core::marker::Destruct, E: core::marker::Destruct> [std::result::Result::<T, E>::unwrap_or_default] (x: Result<T, E>) -> (r: T)
+    ensures x matches Ok(v) ==> r == v;
+pub assume_specification<T, E, U: core::marker::Destruct, F: FnOnce(T) -> U + core::marker::Destruct> [std::result::Result::<T, E>::map_or] (x: Result<T, E>, d: U, f: F) -> (r: U)
+    requires x matches Ok(v) ==> f.requires((v,)),
+    ensures match x { Ok(v) => f.ensures((v,), r), Err(_) => r == d };
+pub assume_specification [<std::cmp::Ordering as PartialEq>::eq] (a: &std::cmp::Ordering, b: &std::cmp::Ordering) -> (r: bool)
+    ensures r == (*a == *b);
